@@ -18,7 +18,7 @@ What differs from C09's `Ends`: a PUBLISH of the client under the SAME identifie
 (`processPublish` answers PUBREC 0x91 and returns: server.go:920-925) — unless the connection ends by it and the session
 with the connection, which `connEnds ∧ endsWithConn` covers; a PUBREC `k` from the client ends it whatever its reason
 code (one in-flight map for both directions, F10: `processPubrec` deletes the record or REPLACES it by a PUBREL record,
-server.go:1190-1230).
+server.go:1214-1231).
 -/
 namespace Mochi.Broker.Q08
 open Mochi.Topics
